@@ -1058,3 +1058,69 @@ func runC15TypedNil(c *CaseCtx, r *rand.Rand) (res CaseResult) {
 	res.Sample = det
 	return res
 }
+
+// runC15ArgSnapshot: Value.Arg() taken from a set's live value carries the
+// value the set held at that moment; changing the set afterwards (direct
+// assignment, FromSignature, a later call of a built function over the set)
+// does not change what the option injects.
+func runC15ArgSnapshot(c *CaseCtx, r *rand.Rand) (res CaseResult) {
+	res.NonTrivial = true
+	named := r.Intn(2) == 0
+	how := r.Intn(3)
+	res.Key = fmt.Sprintf("arg-snapshot named=%v change=%d", named, how)
+	res.obs("family.arg-snapshot", 1)
+	det := map[string]interface{}{"case": res.Key}
+	defer func() {
+		if p := recover(); p != nil {
+			res.violate("C06", "panic/valueset-"+crashKey(fmt.Sprint(p)), fmt.Sprintf("panicked: %v", p), det)
+		}
+	}()
+	v := am.Value{Type: types[0]}
+	if named {
+		v.Name = "a"
+	}
+	vs, err := am.NewValueSet([]am.Value{v})
+	if err != nil {
+		res.Skip = "newvalueset"
+		return res
+	}
+	get := func() *am.Value {
+		if named {
+			return vs.Named("a")
+		}
+		return vs.Typed(types[0])
+	}
+	get().Value = reflect.ValueOf(T0{ID: 1})
+	arg := get().Arg()
+	switch how {
+	case 0:
+		get().Value = reflect.ValueOf(T0{ID: 2})
+	case 1:
+		sv := reflect.New(vs.Signature()[0]).Elem()
+		sv.Field(1).Set(reflect.ValueOf(T0{ID: 2}))
+		vs.FromSignature([]reflect.Value{sv})
+	default:
+		if built, err := am.BuildFunc(vs, nil, func(in, out *am.ValueSet) error { return nil }); err == nil {
+			built.Call(am.NamedSubtype(v.Name, T0{ID: 2}, ""))
+		}
+	}
+	var got int64
+	var tgt *am.Func
+	if named {
+		tgt, _ = am.NewFunc(func(in struct {
+			am.Struct
+			A T0
+		}) {
+			got = in.A.ID
+		})
+	} else {
+		tgt, _ = am.NewFunc(func(x T0) { got = x.ID })
+	}
+	rr := tgt.Call(arg)
+	res.Evals++
+	if rr.Err() != nil || got != 1 {
+		res.violate("C15", "arg-not-a-snapshot", fmt.Sprintf("the option made by Arg() when the set held #1 injected #%d (err %v) after the set was changed to #2", got, rr.Err()), det)
+	}
+	res.Sample = det
+	return res
+}
